@@ -183,7 +183,7 @@ XLATE = {
  'C04': "Translated code (Tie/C04): age.Decrypt translated from /repo and proved equal to the model's decryptInit (decrypt_tie): when every identity answers 'incorrect identity' the result is NoIdentityMatchError carrying EXACTLY one cause per identity tried, and no reader; age.multiUnwrap, translated from /repo on every run, proved equal to the model's multiUnwrap for every per-stanza function and stanza list (first answer other than 'incorrect identity' decides; nothing matched ⇒ exactly ErrIncorrectIdentity).",
  'C10': "Translated code (Tie/C10): (*ScryptIdentity).unwrap and .Unwrap are translated from /repo on every run (format.DecodeString, scrypt.Key, aeadDecrypt abstract) and proved to answer what the model answers for every stanza, passphrase and maximum; scrypt_unwrap_no_kdf: handed a scrypt.Key that FAULTS when called, the translated code still returns normally whenever the model derives no key (non-canonical or too large work factor, wrong arity, bad salt, other type) — 'rejects without deriving a key' as a theorem about the source text; scrypt_Unwrap_alone: a passphrase stanza that is not alone is refused before DecodeString, scrypt.Key or aeadDecrypt is called.",
  'C14': "Translated code (Tie/C14): stream_read_returns / stream_write_returns / stream_close_returns (the translated stream code returns from every related state: none of the three explicit panics of stream.go, no index/slice fault, no aliasing hazard, no exhausted fuel); header_parser_returns (the translated format.Parse returns on EVERY input: no index/slice fault, no explicit panic, fuel len(input)+1 suffices) and scrypt_unwrap_no_kdf / scrypt_unwrap_kdf_bounded (no key derivation beyond the configured maximum), armor_read_returns (the translated de-armoring reader returns from every related state, on every text: no fault, no exhausted fuel) are theorems about code translated from /repo on every run.",
- 'C09': "Translated code (Tie/C09): ALL of internal/bech32 (polymod, hrpExpand, verifyChecksum, createChecksum, convertBits, Encode, Decode) and plugin Encode/Parse{Identity,Recipient} are translated from /repo statement by statement on every run and PROVED, for every byte string incl. non-ASCII and invalid UTF-8, to return exactly what the model returns (decode_tie, encode_tie, parseIdentity_tie, ...): the theorems above are therefore about the functions as they stand in the source.",
+ 'C09': "Translated code (Tie/C09): ALL of internal/bech32 (polymod, hrpExpand, verifyChecksum, createChecksum, convertBits, Encode, Decode) and plugin Encode/Parse{Identity,Recipient} and the native key strings of x25519.go (ParseX25519Recipient, ParseX25519Identity, both String methods and the two constructors; only the scalar multiplication that derives the public key is a parameter) are translated from /repo statement by statement on every run and PROVED, for every byte string incl. non-ASCII and invalid UTF-8, to return exactly what the model returns (decode_tie, encode_tie, parseIdentity_tie, ...): the theorems above are therefore about the functions as they stand in the source.",
  'C11': "Translated code (Tie/C11): age.Encrypt translated from /repo on every run (recipient loop with wrapWithLabels, sort.Strings, the first recipient's list as reference, slicesEqual, failing wrap with its index; then headerMAC, Header.Marshal(dst), nonce, dst.Write) with the destination an explicit state; encrypt_tie: it refuses exactly the lists the model refuses and leaves the destination in the SAME state (untouched on a label or wrap refusal), so encrypt_ok_iff_labels_equal / refusal_writes_nothing are about the source text; age.slicesEqual, regenerated from /repo on every run, proved to be list equality.",
  'C18': "Translated code (Tie/C18): age.ParseIdentities and age.ParseRecipients are translated from /repo on every run (bufio.Scanner loop, line counter, skip test, error with the line number; the single-line parser kept abstract as in the model) and proved, for every file content and every single-line parser, to compute the file-level model — so keyfile_exact / keyfile_no_skip / keyfile_first_error are theorems about these two functions as they stand in the source.",
  'C05': "Translated code (Tie/C05): (*X25519Recipient).Wrap, (*ScryptRecipient).Wrap and .WrapWithLabels are translated from x25519.go / scrypt.go on every run (curve25519.X25519, HKDF-SHA256, scrypt.Key, aeadEncrypt, base64 and crypto/rand-as-a-tape are parameters) and proved to produce, for every key, file key and tape, exactly the stanza of the model whose bytes the theorems above compare with the specification; age.headerMAC and age.streamKey (primitives.go) translated and proved to be HMAC under HKDF(file key, no salt, 'header') of the header without its MAC, and HKDF(file key, nonce, 'payload') (headerMAC_tie, streamKey_tie): stanza type and arguments, HKDF salt = ephemeral share ‖ recipient key and the info label, scrypt salt = label ‖ 16 random bytes with N = 2^logN, r = 8, p = 1, the work factor in decimal, one 16-byte random label in hex, and the order in which randomness is drawn (x25519_wrap_tie, scrypt_wrap_tie, scrypt_wrapWithLabels_tie); the SSH stanzas of agessh/agessh.go likewise (sshEd_wrap_tie: tag, tweak = HKDF(no secret, wire form, label), tweaked secret, salt layout; sshRsa_wrap_tie: tag and OAEP-SHA256 under the label; ssh.PublicKey.Marshal, sshFingerprint and rsa.EncryptOAEP are parameters).",
